@@ -394,6 +394,8 @@ func (e *Engine) Solve(secs int, workers int) {
 				qsecs := secs
 				if j.q.Expect == "sat" && qsecs > 3 {
 					qsecs = 3 // covers only look for a quick contradiction
+				} else if qsecs > 8 {
+					qsecs = 8 // first round is short; goals that need longer get the seeded second round at full length
 				}
 				r := raceSolvers(e.workdir, j.o.Name, j.q.Script, qsecs, j.q.Expect != "sat")
 				want := "unsat"
@@ -401,8 +403,8 @@ func (e *Engine) Solve(secs int, workers int) {
 					want = "sat"
 				}
 				if r.Status != want && (r.Status == "timeout" || r.Status == "unknown") && j.q.Expect != "sat" {
-					// one retry with a different seed (z3 only)
-					r2 := raceSolvers(e.workdir, j.o.Name+"_retry", "(set-option :smt.random_seed 7)\n(set-option :sat.random_seed 7)\n"+j.q.Script, secs, true)
+					// second round: more random seeds, raced
+					r2 := raceWith(moreSolvers, e.workdir, j.o.Name+"_retry", j.q.Script, secs, true)
 					if r2.Status == "unsat" || r2.Status == "sat" {
 						r = r2
 					}
@@ -478,6 +480,7 @@ type funcCtx struct {
 	results []string
 	maxPath int
 	covered map[*ssa.BasicBlock]bool
+	ipdom   map[*ssa.BasicBlock]*ssa.BasicBlock
 }
 
 func (fc *funcCtx) name(kind, site string) string {
@@ -529,6 +532,7 @@ func (e *Engine) VerifyFunc(key string) {
 		fc.loops[l.Head] = l
 	}
 	fc.indexSites()
+	fc.ipdom = ipdoms(fn)
 	// attach checks
 	if len(con.Params) != len(fn.Params) {
 		e.failObligation(fc.name("attach", "params"), "attach", shortKey(key), "contract parameter list matches", fmt.Sprintf("contract names %d parameters, function has %d", len(con.Params), len(fn.Params)))
